@@ -16,7 +16,7 @@ def is_url(value: str) -> None:
 
 
 def is_int(value: int) -> None:
-    if not isinstance(value, int):
+    if isinstance(value, bool) or not isinstance(value, int):
         raise ValueError("must be an int")
 
 
